@@ -731,7 +731,7 @@ def main():
                 (discharged if o["kind"] in PROOF_KINDS else bounded_ok).append(o)
             elif r["status"] == "failed":
                 fcs = r["failed_checks"]
-                if any(re.search(r"unwinding assertion|recursion unwinding", fc["msg"]) for fc in fcs):
+                if any(re.search(r"unwinding assertion|recursion unwinding", fc["msg"]) for fc in fcs) and not o.get("unwind_is_violation"):
                     undecided.append((o, "unwinding bound too small: " + "; ".join(fc["msg"] for fc in fcs[:3]))); continue
                 if not fcs:
                     undecided.append((o, "FAILED without a failed check: " + r["text"][-300:])); continue
@@ -811,7 +811,8 @@ def main():
                            "status": r.get("status"), "solver_s": r.get("time"), "checks": r.get("checks"), "covers": r.get("covers"),
                            "desc": o.get("desc", ""), "assumes": o["assumes"], "instances": r.get("instances"),
                            "extract": r.get("extract"), "times_ms": r.get("times_ms")})
-        assumptions = list(pinfo.get("assumptions", [])) + props.get("_common", {}).get("assumptions", [])
+        assumptions = list(pinfo.get("assumptions", [])) + ([pinfo["note"]] if pinfo.get("note") else []) + props.get("_common", {}).get("assumptions", [])
+        assumptions += ["assumed (callee contract of) " + a for o in obs for a in o["assumes"] if not re.match(r"^C\d+\.", a)]
         cov = {
             "obligations": n_proof,
             "discharged": len(discharged),
